@@ -614,9 +614,14 @@ static void process_result(int cls, uint32_t plen)
 			;
 	}
 	if (cls == 3) {
+		char pre[900];
+		int o = 0;
+		uint32_t k;
+		for (k = 0; k < plen && o < 880; k++)
+			o += snprintf(pre + o, sizeof(pre) - o, "%s%u:%u", k ? "," : "", XB->prefix[k] & 0xffff, XB->prefix[k] >> 16);
 		lock();
 		S->diverged++;
-		snprintf(S->broken_msg, MSGMAX, "%s", (char *)XB->msg);
+		snprintf(S->broken_msg, MSGMAX, "%s | prefix=%s | obs=%.600s", (char *)XB->msg, pre, XB->obs);
 		unlock();
 		return;
 	}
